@@ -889,6 +889,8 @@ async fn run(_tier: Tier) {
     dg_cfg.set_max_retries(kn.dg_retries);
     dg_cfg.set_max_parallel(kn.dg_max_parallel);
     dg_cfg.set_recv_size(kn.dg_recv_size);
+    // (Requests then go out with an OPT record announcing this size.)
+    dg_cfg.set_udp_payload_size(*sim::pick("cfg.dg_udp_payload_size", &[None, Some(1232u16), Some(4096), Some(512)]));
     let mut st_cfg = stream::Config::new();
     st_cfg.set_response_timeout(Duration::from_millis(kn.st_response_timeout_ms));
     st_cfg.set_idle_timeout(Duration::from_millis(kn.st_idle_timeout_ms));
@@ -913,6 +915,14 @@ async fn run(_tier: Tier) {
                 }
                 29 => {
                     p.fail_sends = 1;
+                    led_for_dg.lock().unwrap().push(sim::seq());
+                }
+                27 => {
+                    p.recv_error = true;
+                    led_for_dg.lock().unwrap().push(sim::seq());
+                }
+                26 => {
+                    p.short_send = true;
                     led_for_dg.lock().unwrap().push(sim::seq());
                 }
                 _ => {}
